@@ -28,7 +28,7 @@ theorem table_noUnsetup {db : Db} (h : NoUnsetup db) (p : Prod) : ∀ x ∈ db.t
   split at hx
   · split at hx
     · rename_i d hd
-      exact h.1 d (List.mem_of_find?_eq_some hd) x hx
+      exact h.1 d (List.mem_of_find?_eq_some hd) x (List.mem_filter.mp hx).1
     · simp at hx
   · simp at hx
 
